@@ -2064,6 +2064,35 @@ func sweepValues(goType string) []string {
 	return nil
 }
 
+// enumRequired removes, once per Go field, a member that is serialised
+// without omitempty (first corpus position where it is present): where the
+// library does not insist on it, the zero value or null it writes back must
+// still satisfy the published schema.
+func enumRequired(yield func(MutCase) bool) {
+	loadBases()
+	seen := map[string]bool{}
+	idx := 0
+	for _, b := range bases {
+		for _, s := range b.Sites {
+			if !s.Present || s.Optional || s.Calc || excluded(s) {
+				continue
+			}
+			f := s.Field
+			if f == "" || seen[f] {
+				continue
+			}
+			seen[f] = true
+			idx++
+			if idx%vh.Cfg().Shards != vh.Cfg().Shard {
+				continue
+			}
+			if !yield(MutCase{Path: b.Path, Ops: []Op{{Op: "remove", Ptr: s.Ptr, Kind: s.Kind + ":drop-required:" + s.GoType}}}) {
+				return
+			}
+		}
+	}
+}
+
 func enumFields(yield func(MutCase) bool) {
 	loadBases()
 	type at struct {
@@ -2299,6 +2328,7 @@ func init() {
 	vh.Enum("schemas", enumSchemas, judgeSchema)
 	vh.Enum("corpus", enumCorpus, judgeCorpus)
 	vh.Enum("definitions", enumDefs, judgeDef)
+	vh.Enum("required", enumRequired, judgeMutation)
 	vh.Enum("fields", enumFields, judgeMutation)
 	vh.Rapid("mutations", 1800, 96000, genMutation, judgeMutation)
 }
